@@ -270,6 +270,16 @@ func classificationMonitor(prefix string) func(c *Ctx) []Violation {
 			} else if v.User != fail.Err || !v.IsUser {
 				bad("constructor-error-not-recoverable", "%s returned %v during %s; RootCause/errors.Is do not yield it (%s)", fail.Fn, fail.Err, st.Op, v.Class())
 			}
+		case fail != nil && fail.Outcome == u.BehErrZero:
+			// an error that is the zero value of a struct type is an error
+			c.Hit("zero_valued_errors_classified")
+			if fail.Fn == st.Inst {
+				if v.OK || !v.ZeroIdentical {
+					bad("invoked-function-error-not-returned-as-is", "%s returned the error %T{} but Invoke => %s", fail.Fn, u.ZeroErr{}, v.Class())
+				}
+			} else if v.OK || !v.ZeroErr || !v.ZeroRoot {
+				bad("constructor-error-not-recoverable", "%s returned the error %T{} during %s; RootCause/errors.Is do not yield it (%s)", fail.Fn, u.ZeroErr{}, st.Op, v.Class())
+			}
 		case !v.OK:
 			c.Hit("dig_failures_classified")
 			if v.Escaped {
@@ -366,6 +376,10 @@ func c13Units(tier string) []Unit {
 		if f.name == "positional-chain" || f.name == "decorators" || !q {
 			// a panic whose value is itself an error wrapping a dig error
 			fb = append(append([][]u.Beh{}, behs...), []u.Beh{u.BehPanicDigErr}, []u.Beh{u.BehPanicWrapsPanicErr})
+		}
+		if f.name == "positional-chain" || f.name == "decorators" || f.name == "custom-error-types" || !q {
+			// an error value that is the zero value of its (struct) type
+			fb = append(append([][]u.Beh{}, fb...), []u.Beh{u.BehErrZero})
 		}
 		for _, plan := range faultPlans(f.faulty, fb, false) {
 			for _, rec := range []bool{false, true} {
